@@ -149,10 +149,14 @@ def _one_op(rnd, probe, tag, queries, compound_ok):
         probe(tag, rnd.choice([0, 0, 1, 2]), rnd.choice([0, 0.0002, 0.001]))
 
 
+_ready_n = [0]
+
+
 def announce_ready():
     """Rendezvous through the run's directory: one file per process that has reached its
-    workload."""
-    open(os.path.join(os.environ["VF_C14_DIR"], "ready-%d" % os.getpid()), "w").close()
+    workload (or, written by its parent, per process whose start failed)."""
+    _ready_n[0] += 1
+    open(os.path.join(os.environ["VF_C14_DIR"], "ready-%d-%d" % (os.getpid(), _ready_n[0])), "w").close()
 
 
 def all_ready(expect):
@@ -246,7 +250,7 @@ def make_process(cfg, args):
     if how == "context":
         # a context's own Process class (what multiprocessing.Pool and friends use); not a
         # subclass of multiprocessing.Process
-        return multiprocessing.get_context(cfg["method"]).Process(target=child_main, args=args)
+        return multiprocessing.get_context(cfg.get("ctx_method") or cfg["method"]).Process(target=child_main, args=args)
     if how == "lazy":
         from . import c14_lazy
 
@@ -266,7 +270,7 @@ def child_main(cfg, tag, seed, level):
     # state it had in the parent at that instant -- possibly held by a thread that does not
     # exist in the child.  That is the generic fork-with-threads hazard, not terminal
     # serialization: fork children therefore do not call the memoized query helpers.
-    compound_ok = cfg["method"] != "fork"
+    compound_ok = (cfg.get("ctx_method") or cfg["method"]) != "fork" if cfg.get("create") == "context" else cfg["method"] != "fork"
     expect = cfg.get("expect_procs", 0)
     ths = [threading.Thread(target=hammer, args=("%s.t%d" % (tag, i), cfg["ops"], seed * 31 + i, True, compound_ok, expect)) for i in range(cfg["child_threads"])]
     for t in ths:
@@ -276,7 +280,13 @@ def child_main(cfg, tag, seed, level):
         for j in range(cfg["grandchildren"]):
             time.sleep(random.Random(seed + j).uniform(0, 0.003))
             p = make_process(cfg, (cfg, "%s.g%d" % (tag, j), seed * 7 + j, level + 1))
-            p.start()
+            try:
+                p.start()
+            except Exception as e:
+                with open(_log_path(), "a") as f:
+                    f.write(json.dumps(["S", os.getpid(), tag, "%s: %s" % (type(e).__name__, e)]) + "\n")
+                announce_ready()  # on behalf of the process that never came to be
+                continue
             procs.append(p)
     announce_ready()
     hammer(tag, cfg["ops"], seed, True, compound_ok, expect)
